@@ -97,9 +97,8 @@ class SubModel:
             return False
         if reason == 'near_expiry':
             return None
-        s = self.subs[key]
-        since = [s.failed_at, s.unsubscribed_at, s.expires_at if now >= s.expires_at - EPS else None]
-        since = [t for t in since if t is not None]
+        s = self.subs[key]  # (a subscription beyond the failure limit is not sent anything; the statement does not say it is forgotten)
+        since = [t for t in (s.unsubscribed_at, s.expires_at if now >= s.expires_at - EPS else None) if t is not None]
         return True if since and now - min(since) > GRACE + TOL else None
 
     def stop(self, now, send_end: bool):
